@@ -86,8 +86,8 @@ Section Top.
     - destruct Hbody as [p [Hp ->]].
       rewrite (plan_keyed F own traits _ p Hp) in Hc. cbn [bind] in Hc.
       inversion Hc; subst c; clear Hc.
-      destruct a as [| | | | | |va xs| | | |]; try discriminate Ha.
-      destruct b as [| | | | | |vb ys| | | |]; try discriminate Hb.
+      destruct a as [| | | | | |va xs| | | | |]; try discriminate Ha.
+      destruct b as [| | | | | |vb ys| | | | |]; try discriminate Hb.
       destruct va as [va|]; [cbn in Ha; discriminate Ha|].
       destruct vb as [vb|]; [cbn in Hb; discriminate Hb|].
       cbn [ovalue_ok oc_get] in Ha, Hb. apply oshape_ok_keys in Ha. apply oshape_ok_keys in Hb.
